@@ -11,7 +11,7 @@ vars == <<l, run, serial, st, sig, entered, decision, texts>>
 Ev == TheTrace[l]
 Is(name) == l <= TraceLen /\ Ev.e = name
 
-NoRun == [P |-> 1, plan |-> <<>>, usage |-> 1, hasPos |-> FALSE, exactFirstOnly |-> FALSE, posMod |-> 1, base |-> 0, n0 |-> 0, sqExact |-> TRUE, big |-> FALSE]
+NoRun == [P |-> 1, plan |-> <<>>, usage |-> 1, hasPos |-> FALSE, exactFirstOnly |-> FALSE, posMod |-> 1, base |-> 0, n0 |-> 0, sqExact |-> TRUE, big |-> FALSE, loose |-> FALSE]
 Init == /\ l = 1 /\ run = NoRun /\ serial = <<>> /\ st = <<>> /\ sig = <<>> /\ entered = <<>> /\ decision = <<>> /\ texts = [serial |-> 0, mpi |-> 0]
 
 Ranks == 0 .. run.P - 1
@@ -20,7 +20,8 @@ Fresh == [it |-> 1, evals |-> 0, seq |-> 0, inside |-> FALSE, adds |-> 0, colls 
 
 TRun == /\ Is("MRun")
         /\ run' = [P |-> Ev.P, plan |-> Ev.plan, usage |-> Ev.usage, hasPos |-> Ev.hasPos = 1, exactFirstOnly |-> Ev.exactFirstOnly = 1, posMod |-> Ev.posMod, base |-> Ev.base, n0 |-> Ev.n0, sqExact |-> Ev.sqExact = 1,
-                   big |-> ("big" \in DOMAIN Ev) /\ Ev.big = 1]   \* very long run: evaluations are not logged, sums are not exact
+                   big |-> ("big" \in DOMAIN Ev) /\ Ev.big = 1,
+                   loose |-> ("loose" \in DOMAIN Ev) /\ Ev.loose = 1]   \* weights that are not dyadic: no iteration has exact sums   \* very long run: evaluations are not logged, sums are not exact
         /\ serial' = <<>> /\ st' = [r \in 0 .. Ev.P - 1 |-> Fresh] /\ sig' = <<>> /\ entered' = <<>> /\ decision' = <<>>
         /\ texts' = [serial |-> 0, mpi |-> 0] /\ l' = l + 1
 
@@ -79,7 +80,7 @@ TAdd ==
            s == st[r]
            i == s.it
            ref == serial[i]
-           exact == ~run.big /\ ((~run.exactFirstOnly) \/ (i = 1 /\ run.n0 = 0))
+           exact == ~run.big /\ ~run.loose /\ ((~run.exactFirstOnly) \/ (i = 1 /\ run.n0 = 0))
        IN /\ r \in Ranks /\ ~s.inside /\ ~s.returned /\ (run.P = 1 \/ s.colls >= 1 \/ TRUE) /\ s.adds = i - 1
           /\ Ev.n = run.n0 + i /\ i <= Len(serial)
           /\ (i = 1) => Ev.recorded = ref.recorded                                  \* both runs start from the same checkpoint: same first state
@@ -116,7 +117,7 @@ TReturned ==
           /\ Ev.n = run.n0 + s.adds /\ s.adds = Len(serial)                             \* as many iterations as the serial run
           /\ (~s.ret) \/ s.it = Len(run.plan) + 1
           /\ (texts.mpi # 0) => Ev.text = texts.mpi                                    \* every rank returns the same checkpoint
-          /\ (~run.big /\ (~run.exactFirstOnly \/ Len(serial) <= 1)) => Ev.text = texts.serial       \* ... the serial one when sums are exact
+          /\ (~run.big /\ ~run.loose /\ (~run.exactFirstOnly \/ Len(serial) <= 1)) => Ev.text = texts.serial       \* ... the serial one when sums are exact
           /\ texts' = [texts EXCEPT !.mpi = Ev.text]
           /\ st' = [st EXCEPT ![r].returned = TRUE]
     /\ UNCHANGED <<run, serial, sig, entered, decision>> /\ l' = l + 1
